@@ -552,6 +552,24 @@ def g_mga(rng):
     return [z, e, n, ht, rand_psd(rng) if rng.random() < 0.5 else None]
 
 
+def rand_col(rng):
+    """a 3x1 column of variances (zero entries now and then)"""
+    sc = 10 ** rng.uniform(-8, -2)
+    return np.array([[rng.choice([rng.uniform(0, 1) * sc, rng.uniform(0, 1) * sc, 0.0])] for _ in range(3)])
+
+
+def g_mga_col(rng):
+    a = g_mga(rng)
+    a[4] = rand_col(rng) if rng.random() < 0.85 else None
+    return a
+
+
+def g_conform7_col(rng):
+    a = g_conform7(rng)
+    a[4] = rand_col(rng) if rng.random() < 0.85 else None
+    return a
+
+
 def impl_mga(fn):
     def f(zone, east, north, ell_ht, vcv):
         return fn(zone, east, north, False if ell_ht is None else ell_ht, vcv)
@@ -608,6 +626,9 @@ REGISTRY.update({
     'Constants.Transformation.add': (lambda t, d: t + d, g_trans_add),
     'Transform.conform7': (TF.conform7, g_conform7),
     'Transform.conform14': (TF.conform14, g_conform14),
+    'Transform.conform7_31': (TF.conform7, g_conform7_col),
+    'Transform.transform_mga94_to_mga2020_31': (impl_mga(TF.transform_mga94_to_mga2020), g_mga_col),
+    'Transform.transform_mga2020_to_mga94_31': (impl_mga(TF.transform_mga2020_to_mga94), g_mga_col),
     'Transform.transform_mga94_to_mga2020': (impl_mga(TF.transform_mga94_to_mga2020), g_mga),
     'Transform.transform_mga2020_to_mga94': (impl_mga(TF.transform_mga2020_to_mga94), g_mga),
     'Transform.transform_atrf2014_to_gda2020': (TF.transform_atrf2014_to_gda2020, g_atrf),
@@ -631,6 +652,9 @@ TIE_TOL = {
     'Transform.conform14': [(3, 'scaled', 8), (9, 'scaled', 32)],
     'Transform.transform_atrf2014_to_gda2020': [(3, 'scaled', 8), (9, 'scaled', 32)],
     'Transform.transform_gda2020_to_atrf2014': [(3, 'scaled', 8), (9, 'scaled', 32)],
+    'Transform.conform7_31': [(3, 'scaled', 8), (9, 'scaled', 32)],
+    'Transform.transform_mga94_to_mga2020_31': [(1, 'exact', 0), (3, 'abs', 1.0000001e-4), (9, 'scaled', 64)],
+    'Transform.transform_mga2020_to_mga94_31': [(1, 'exact', 0), (3, 'abs', 1.0000001e-4), (9, 'scaled', 64)],
     'Transform.transform_mga94_to_mga2020': [(1, 'exact', 0), (3, 'abs', 1.0000001e-4), (9, 'scaled', 64)],
     'Transform.transform_mga2020_to_mga94': [(1, 'exact', 0), (3, 'abs', 1.0000001e-4), (9, 'scaled', 64)],
 }
